@@ -16,6 +16,7 @@ static ALLOC: c15::Counting = c15::Counting;
 
 fn main() {
     let ctx = vmc::report::Ctx::from_args();
+    vmc::install_watchdog(if ctx.tier == vmc::report::Tier::Thorough { 6 * 3600 } else { 45 * 60 }, format!("check {}", ctx.id));
     // logging enabled is part of the environment: statements inside log macros only run when a logger accepts them.
     // C15 measures cost without trace output (error level only).
     vmc::install_logger(if ctx.id == "C15" { log::LevelFilter::Error } else { log::LevelFilter::Trace });
